@@ -28,35 +28,57 @@ def lit(v):
     return '"' + esc(v) + '"'
 
 
-def meta_src(m):
+SIDE = {"ser": "serialize", "de": "deserialize"}
+
+
+def meta_src(m, ws=0):
+    """one meta item; ws: 0 usual spacing, 1 tight, 2 loose (proc_macro2 prints all three alike)"""
+    eq = [" = ", "=", "  =  "][ws]
+    comma = [", ", ",", " ,\n            "][ws]
+    op, cl = [("(", ")"), ("(", ")"), (" ( ", " )")][ws]
     if m[0] == "rename":
-        return "rename = " + lit(m[1])
+        return "rename" + eq + lit(m[1])
+    if m[0] == "renamep":
+        return "rename" + op + comma.join(SIDE[a] + eq + lit(v) for a, v in m[1]) + cl
     if m[0] == "skip":
         return "skip"
     if m[0] == "other":
-        return m[1] if len(m) == 2 else m[1] + " = " + lit(m[2])
+        return m[1] if len(m) == 2 else m[1] + eq + lit(m[2])
     if m[0] == "ra":
-        return "rename_all = " + lit(m[1])
+        return "rename_all" + eq + lit(m[1])
+    if m[0] == "rap":
+        return "rename_all" + op + comma.join(SIDE[a] + eq + lit(v) for a, v in m[1]) + cl
     if m[0] == "flag":
         return m[1]
+    if m[0] == "kv":
+        return m[1] + eq + lit(m[2])
     if m[0] == "raw":                       # malformed stream: verbatim attribute text
         return m[1]
     raise ValueError(m)
 
 
+def attr_src(g, ws=0):
+    comma = [", ", ",", " ,\n        "][ws]
+    op, cl = [("(", ")"), ("(", ")"), (" ( ", " )")][ws]
+    return "#[serde%s%s%s]" % (op, comma.join(meta_src(m, ws) for m in g), cl)
+
+
 def rust_source(c):
+    ws = c.get("ws", 0)
     out = ["use serde::{Deserialize, Serialize};", "", "#[derive(Debug, Clone, Serialize, Deserialize)]"]
     for g in c.get("cattrs", []):
-        out.append("#[serde(%s)]" % ", ".join(meta_src(m) for m in g))
+        out.append(attr_src(g, ws))
     struct = c["kind"] == "struct"
     out.append("pub %s T0 {" % ("struct" if struct else "enum"))
     for k, it in enumerate(c["items"]):
         for g in it.get("attrs", []):
-            out.append("    #[serde(%s)]" % ", ".join(meta_src(m) for m in g))
+            out.append("    " + attr_src(g, ws))
         if struct:
             out.append("    pub %s: %s," % (it["ident"], "String" if k % 2 == 0 else "i32"))
         else:
-            out.append("    %s," % it["ident"])
+            # unit, tuple and struct variants (StructParser marks them enum_variant / _tuple / _struct)
+            tail = {"unit": "", "tuple": "(u32, String)", "struct": " { x_pos: i32, label: String }"}[it.get("shape", "unit")]
+            out.append("    %s%s," % (it["ident"], tail))
     out.append("}")
     out += ["", "#[tauri::command]", "pub fn c06(a: T0) -> T0 {", "    a", "}", ""]
     return "\n".join(out)
@@ -92,14 +114,77 @@ def attr_shapes():
     shapes.append([[ren("skipper")]])
     shapes.append([[ren("rename_all")]])
     shapes.append([[["other", "alias", "other"], ren("r3")]])
+    # the parenthesised spelling of rename
+    shapes.append([[["renamep", [["ser", "serName"]]]]])
+    shapes.append([[["renamep", [["ser", "ser-name"], ["de", "deName"]]], dflt]])
+    shapes.append([[dflt], [["renamep", [["de", "same"], ["ser", "same"]]]]])
+    shapes.append([[["renamep", [["de", "deName"], ["ser", "serName"]]]]])       # C06-8
+    shapes.append([[["renamep", [["de", "deOnly"]]]]])                             # C06-8
     return shapes
 
 
-def cattrs_for(rule, variant=0):
+def other_rule(rule):
+    return RULES[(RULES.index(rule) + 3) % len(RULES)]
+
+
+def cattrs_for(rule, variant=0, kind="struct"):
+    """container attributes in every legal serde spelling: rename_all = .., rename_all(serialize = ..,
+    deserialize = ..) with equal / different / one-sided conventions in both orders, other keys (flags,
+    tag, container rename, rename_all_fields) before and after, split over several #[serde]."""
+    enum = kind == "enum"
+    side_key = ["kv", "tag", "type"] if enum else ["kv", "rename", "WireName"]
     if rule is None:
-        return [] if variant == 0 else [[["flag", "deny_unknown_fields"]]]
+        opts = [[], [[["flag", "deny_unknown_fields"]]], [[side_key]], [[["kv", "rename", "Wire"]], [["flag", "deny_unknown_fields"]]]]
+        if enum:
+            opts.append([[["kv", "rename_all_fields", "camelCase"]]])                       # C06-9
+        return opts[variant % len(opts)]
     ra = ["ra", rule]
-    return [[[ra]], [[["flag", "deny_unknown_fields"], ra]], [[ra], [["flag", "default"]]], [[["flag", "default"]], [ra]]][variant % 4]
+    d = other_rule(rule)
+    opts = [
+        [[ra]],
+        [[["flag", "deny_unknown_fields"], ra]],
+        [[ra], [["flag", "default"]]],
+        [[["flag", "default"]], [ra]],
+        [[["rap", [["ser", rule], ["de", rule]]]]],
+        [[["rap", [["ser", rule]]], ["flag", "deny_unknown_fields"]]],
+        [[["rap", [["ser", rule], ["de", d]]], ["kv", "rename", "Wire"]]],
+        [[side_key], [["rap", [["de", rule], ["ser", rule]]]]],
+        [[["rap", [["de", d], ["ser", rule]]]]],                                            # C06-8
+        [[["rap", [["de", rule]]]]],                                                        # C06-8
+    ]
+    if enum:
+        opts.append([[["kv", "rename_all_fields", d], ra]])                                 # C06-9
+        opts.append([[ra, ["kv", "rename_all_fields", d]]])
+    return opts[variant % len(opts)]
+
+
+def has_tag(cattrs):
+    return any(m[0] == "kv" and m[1] == "tag" for g in cattrs for m in g)
+
+
+def shaped(kind, cattrs, ident, attrs, k):
+    it = {"ident": ident, "attrs": attrs}
+    if kind == "enum":
+        sh = ["unit", "tuple", "struct"][k % 3]
+        if sh == "tuple" and has_tag(cattrs):      # serde rejects tuple variants in internally tagged enums
+            sh = "struct"
+        it["shape"] = sh
+    return it
+
+
+def spellings():
+    """every container spelling x rule x kind x variant shape on multi-word identifiers without item
+    attributes (the dimension seeds C06-5 / C06-6 live in)."""
+    cases = []
+    for kind in ("struct", "enum"):
+        idents = ["user_id", "first_last_name", "a"] if kind == "struct" else ["TaskStarted", "HTTPError", "A"]
+        for rule in [None] + RULES:
+            for v in range(12 if rule else 5):
+                cattrs = cattrs_for(rule, v, kind)
+                for k in range(3 if kind == "enum" else 1):
+                    items = [shaped(kind, cattrs, idn, [], k + j) for j, idn in enumerate(idents)]
+                    cases.append({"kind": kind, "cattrs": cattrs, "items": items, "dfc": "snake_case", "ws": (v + k) % 3})
+    return cases
 
 
 def exhaustive(thorough):
@@ -114,8 +199,9 @@ def exhaustive(thorough):
                     # (rule, identifier) and (shape, identifier) pair occurs
                     if not thorough and (si + ii) % 3 != 0 and si != 0:
                         continue
-                    cases.append({"kind": kind, "cattrs": cattrs_for(rule, si), "items": [{"ident": ident, "attrs": shape}],
-                                  "dfc": "snake_case"})
+                    cattrs = cattrs_for(rule, si, kind)
+                    cases.append({"kind": kind, "cattrs": cattrs, "items": [shaped(kind, cattrs, ident, shape, si + ii)],
+                                  "dfc": "snake_case", "ws": (si + 2 * ii) % 3})
     return cases
 
 
@@ -155,6 +241,12 @@ OTHER_KV = ["skip_serializing_if", "default", "alias", "with", "serialize_with",
 def rand_meta(rng, clean, have_rename):
     r = rng.random()
     if r < 0.3 and not have_rename:
+        if rng.random() < 0.3:           # the parenthesised spelling; clean: serialize first or alone
+            sv, dv = rand_value(rng, clean), rand_value(rng, clean)
+            forms = [[["ser", sv]], [["ser", sv], ["de", dv]], [["de", sv], ["ser", sv]]]
+            if not clean:
+                forms += [[["de", dv], ["ser", sv]], [["de", dv]]]
+            return ["renamep", rng.choice(forms)]
         return ["rename", rand_value(rng, clean)]
     if r < 0.42:
         return ["skip"]
@@ -177,7 +269,7 @@ def rand_item(rng, kind, clean, used):
     metas = []
     for _ in range(nattrs):
         m = rand_meta(rng, clean, have_rename)
-        have_rename |= m[0] == "rename"
+        have_rename |= m[0] in ("rename", "renamep")
         metas.append(m)
     # split over one or several #[serde(..)]
     while metas:
@@ -192,7 +284,15 @@ def rand_container(rng, clean):
     rule = rng.choice([None] + RULES)
     used = set()
     items = [rand_item(rng, kind, clean, used) for _ in range(rng.randint(1, 5))]
-    return {"kind": kind, "cattrs": cattrs_for(rule, rng.randrange(4)), "items": items, "dfc": "snake_case"}
+    # clean: the spellings outside C06-8 / C06-9 (variants 0-7 with a rule, 0-3 without)
+    v = rng.randrange(8 if rule else 4) if clean else rng.randrange(12)
+    cattrs = cattrs_for(rule, v, kind)
+    if kind == "enum":
+        for it in items:
+            it["shape"] = rng.choice(["unit", "unit", "tuple", "struct"])
+            if it["shape"] == "tuple" and has_tag(cattrs):
+                it["shape"] = "struct"
+    return {"kind": kind, "cattrs": cattrs, "items": items, "dfc": "snake_case", "ws": rng.randrange(3)}
 
 
 def random_cases(rng, n):
@@ -210,6 +310,7 @@ def config_cases(rng, n):
             c["kind"] = "struct"
             c["cattrs"] = cattrs_for(None, rng.randrange(2))
             for it in c["items"]:
+                it.pop("shape", None)
                 it["ident"] = it["ident"].lower() if it["ident"][:2] != "r#" else it["ident"]
         c["dfc"] = rng.choice(RULES + ["camelcase", "", "Snake_Case"])
         out.append(c)
